@@ -138,8 +138,17 @@ def _worker(case):
 
     cap = Capture()
     gam.callbacks = list(gam.callbacks) + [cap]
+    first = None
+    if case.get('refit'):
+        # history: the SAME object is first fitted on other data (other sample size, very different noise level, other
+        # weights); every statistic checked below must be that of the second fit alone
+        X1, y1, w1 = _first_data(case, X, y, w)
+        st1, out1 = fitgen.fit_quiet(gam, X1, y1, w1)
+        first = dict(status=st1, n=len(y1))
+        if st1 == 'ok':
+            first['scale'] = float(gam.statistics_['scale'])
     status, out = fitgen.fit_quiet(gam, X, y, w)
-    res = dict(case=case, status=status, msg=out if status != 'ok' else '', desc=b['desc'])
+    res = dict(case=case, status=status, msg=out if status != 'ok' else '', desc=b['desc'], first=first)
     if status != 'ok':
         return res
     converged = 'did not converge' not in out
@@ -349,6 +358,48 @@ def _worker(case):
     return res
 
 
+def _first_data(case, X, y, w):
+    """data of the first fit of a refit case: every other row (half the sample size, all rows when n < 8), responses
+    with a very different level and noise (still in the support of the family / domain of the link), other weights"""
+    rs = np.random.default_rng(case['seed'] + 13)
+    n = len(y)
+    idx = np.arange(0, n, 2) if n >= 8 else np.arange(n)
+    X1, y1 = X[idx].copy(), np.asarray(y, dtype=float)[idx].copy()
+    d = case['dist']
+    if d == 'normal' and case['link'] == 'identity':
+        y1 = 3.0 * y1 + 5.0 * rs.normal(size=len(y1))
+    elif d in ('normal', 'gamma', 'inv_gauss'):            # positive responses
+        y1 = y1 * np.exp(0.8 * rs.normal(size=len(y1)))
+    else:                                                  # binomial / poisson: permute
+        y1 = y1[rs.permutation(len(y1))]
+    w1 = None if (w is not None and case['seed'] % 2) else rs.choice([0.5, 1.0, 2.0, 3.0], size=len(y1))
+    return X1, y1, w1
+
+
+def gen_refit_cases(rng, tier):
+    """refit cases: generic GAM with a distribution given by name (the Distribution object survives between fits),
+    the dedicated classes as controls, estimated and user-supplied scale, with and without weights"""
+    pairs = [('GAM', 'normal', 'identity'), ('GAM', 'gamma', 'log'), ('GAM', 'inv_gauss', 'log'), ('GAM', 'normal', 'log'),
+             ('GAM', 'gamma', 'inverse'), ('GAM', 'inv_gauss', 'inv_squared'), ('GAM', 'binomial', 'logit'), ('GAM', 'poisson', 'log'),
+             ('LinearGAM', 'normal', 'identity'), ('GammaGAM', 'gamma', 'log'), ('InvGaussGAM', 'inv_gauss', 'log'),
+             ('ExpectileGAM', 'normal', 'identity'), ('LogisticGAM', 'binomial', 'logit'), ('PoissonGAM', 'poisson', 'log')]
+    reps = 2 if tier == 'quick' else 8
+    cases = []
+    for rep in range(reps):
+        for i, (cls, dist, link) in enumerate(pairs):
+            dedicated = cls in ('LinearGAM', 'GammaGAM', 'InvGaussGAM', 'ExpectileGAM')
+            cases.append(dict(
+                seed=rng.randrange(10 ** 9), cls=cls, dist=dist, link=link,
+                levels=rng.choice([2, 5]) if (cls == 'GAM' and dist == 'binomial') else 1,
+                expectile=rng.choice([0.25, 0.5, 0.9]) if cls == 'ExpectileGAM' else None,
+                scale=rng.choice([None, None, 0.3, 2.5]) if dedicated else None,
+                n_mode=rng.choice(['mid', 'large'] if tier == 'quick' else ['m+1', 'small', 'mid', 'large']),
+                weights_mode=['none', 'pos'][(rep + i) % 2] if tier == 'quick' else rng.choice(['none', 'pos', 'int']),
+                lam_mode=rng.choice(['default', 'default', 'mixed']), constraints=False, max_terms=rng.choice([1, 2]),
+                refit=True))
+    return cases
+
+
 def _bits(a):
     return ' '.join(common.f2bits(v) for v in np.asarray(a, dtype=float).ravel())
 
@@ -551,6 +602,7 @@ st_wd = 'wald.pvalues'
 st_ac = 'accuracy.literals'
 st_con = 'lapack.contracts'
 st_or = 'stats.oracle'
+st_rf = 'refit.statistics'
 
 
 def _declare(ctx):
@@ -561,7 +613,8 @@ def _declare(ctx):
     ctx.stream(st_ac, 'LogisticGAM.accuracy(y=, mu=) == Stats.accuracy on vectors seeded with the literals of the code and their neighbours')
     ctx.stream(st_con, "contracts assumed by the theorems, on the loop locals: Q'Q=I, WB=QR, E'E=S+P+C, [R;E]=U diag(d) V', U'U = UU' = I, V'V=I, d>0, U1 = U[:k,:m], k = min(rows, m); Moore-Penrose C P C = C of SciPy pinv")
     ctx.stream(st_or, 'NumPy/SciPy oracle on the real code: influence-matrix trace, sandwich covariance, Pearson scale, closed-form log-densities, AIC/AICc/GCV/UBRE/R2, Wald p-values (eigen pinv), residuals, score, accuracy, bounds 0 < edof <= min(n, m)')
-    ctx.extra['rule'] = ('cases = model class / distribution x link pair x random term program x n relative to m (m-1, m, m+1, 12, 60, 200) x weights mode '
+    ctx.stream(st_rf, 'history independence of the statistics: the same object is fitted on other data first (other n, noise level, weights); every statistics_ entry and evaluation output of the SECOND fit == oracle and model for the second data set (generic GAM by distribution name, dedicated classes, estimated and known scale)')
+    ctx.extra['rule'] = ('cases = (fresh object | object already fitted on other data) x model class / distribution x link pair x random term program x n relative to m (m-1, m, m+1, 12, 60, 200) x weights mode '
                          '(none / positive / integer / with zeros) x lam mode x known or estimated scale; distinct = distinct case dicts; '
                          'non-trivial = fit with a non-default ingredient (weights, n <= m, constraints, non-default lam, known scale, generic GAM / ExpectileGAM)')
     ctx.assumptions.append('SciPy chi2.cdf, f.cdf, linalg.pinv (Moore-Penrose, validated as C P C = C each run), special.gammaln and the log-density normalisers are trusted library parameters')
@@ -571,7 +624,7 @@ def run(ctx):
     pygam = common.import_pygam()
     _declare(ctx)
     ncase = 52 if ctx.tier == 'quick' else 520
-    cases = fitgen.gen_cases(ctx.subrng('cases'), ncase, ctx.tier)
+    cases = fitgen.gen_cases(ctx.subrng('cases'), ncase, ctx.tier) + gen_refit_cases(ctx.subrng('refit'), ctx.tier)
     with mp.get_context('fork').Pool(min(16, len(cases))) as pool:
         results = pool.map(_worker, cases, chunksize=1)
     _process(ctx, results)
@@ -661,7 +714,15 @@ def _process(ctx, results):
             ctx.count('mu', 'predict_mu differs from g^-1(B coef) by > 1e-9')
 
         # ---- oracle
+        refit = bool(c.get('refit'))
+        so = st_rf if refit else st_or
         ctx.case(st_or, sig, nontrivial=nontriv, sample=small)
+        if refit:
+            f1 = r.get('first') or {}
+            ctx.case(st_rf, sig, nontrivial=f1.get('status') == 'ok', sample=dict(small, first_fit=f1))
+            ctx.count('refit', 'first fit %s; scale %s' % (f1.get('status'), 'known' if r['known'] is not None else 'estimated'))
+            if f1.get('status') == 'ok' and r['known'] is None and I['scale'] != 0:
+                ctx.count('refit scale ratio (first / second fit)', '%.0e' % (f1['scale'] / I['scale']))
         if I['scale'] == 0:
             # interpolating fit with an estimated scale of exactly 0: every *scaled* deviance is 0/0 (explained deviance,
             # score, statistics_['deviance'], scaled residuals); explained_scale_free is stated for scale != 0
@@ -676,8 +737,8 @@ def _process(ctx, results):
             conf = [b_ for b_ in bad if b_[0] in names2]
             if conf:
                 stat, obs, exp, det = conf[0]
-                ctx.fail(st_or, dict(kind='statistic', stat=stat.split('/')[0], cls=c['cls'], pair='%s/%s' % (c['dist'], c['link']), nm=_nm(r),
-                                     scale='known' if r['known'] is not None else 'estimated', weights=c['weights_mode']),
+                ctx.fail(so, dict(kind='statistic', stat=stat.split('/')[0], cls=c['cls'], pair='%s/%s' % (c['dist'], c['link']), nm=_nm(r),
+                                     scale='known' if r['known'] is not None else 'estimated', weights=c['weights_mode'], refit=refit),
                          dict(case=c, n=r['n'], m=r['m']),
                          observed=dict(stat=stat, value=obs, all_bad=[b_[0] for b_ in conf][:12]), expected=dict(value=exp, detail=det),
                          oracle='NumPy/SciPy recomputation of the documented formula from (B, A, y, mu, w, coef_)')
@@ -703,7 +764,7 @@ def _process(ctx, results):
                 model = dict(zip(SCALARS, sc))
                 dis = [s_ for s_ in SCALARS if not _close(I[s_], model[s_], tols[s_] or 0.0, rtol=1e-9)]
                 if dis and not oracle_bad:
-                    ctx.disagree(st_cf, sig, {s_: I[s_] for s_ in dis}, {s_: model[s_] for s_ in dis}, 'closed-form statistics differ: %s' % dis)
+                    ctx.disagree(st_rf if refit else st_cf, sig, {s_: I[s_] for s_ in dis}, {s_: model[s_] for s_ in dis}, 'closed-form statistics differ: %s' % dis)
                 if r['converged']:
                     ctx.case(st_sv, sig, nontrivial=nontriv, sample=dict(small, edof_model=edofM, thr=thr))
                     if judged and not oracle_bad:
@@ -712,7 +773,7 @@ def _process(ctx, results):
                         dc = float(np.abs(covM - I['cov']).max() / cm)
                         ds = float(np.abs(seM - I['se']).max() / (np.abs(I['se']).max() + 1e-300))
                         if not (de <= thr and dc <= thr and ds <= thr):
-                            ctx.disagree(st_sv, sig, dict(edof=I['edof']), dict(edof=edofM, rel_edof=de, rel_cov=dc, rel_se=ds, thr=thr),
+                            ctx.disagree(st_rf if refit else st_sv, sig, dict(edof=I['edof']), dict(edof=edofM, rel_edof=de, rel_cov=dc, rel_se=ds, thr=thr),
                                          'edof / cov / se differ from the model solve')
             elif kind == 'eval':
                 ent = r['evals'][j]
